@@ -267,6 +267,27 @@ def game_from_buffers(mem, share=True):
     return g, [g.gfx, g.map, g.gff, g.music, g.sfx], bufs
 
 
+def game_from_p8(mem):
+    """A Game LOADED from a .p8 file the way PICO-8 saves carts (trailing rows equal to the empty default are not
+    written, sections without a row are left out altogether): the five regions `mem` (hex, in the order gfx, map, gff,
+    music, sfx) are written by the library's own .p8 writer, the text is cut the PICO-8 way and read back by the .p8
+    reader.  The regions of the loaded Game must be the bytes of `mem` again (music: the one bit the text has no place
+    for cleared by the caller), whole, and wired to one another like those of any other cart.
+    -> (game, [gfx, map, gff, music, sfx])"""
+    import io
+    from pico8.game.game import Game
+    from pico8.game.formatter.p8 import P8Formatter
+    from props import shortp8
+    g0 = Game.make_empty_game()
+    for sec, h in zip([g0.gfx, g0.map, g0.gff, g0.music, g0.sfx], mem):
+        sec._data[:] = unhx(h)
+    f = io.BytesIO()
+    P8Formatter.to_file(g0, f)
+    text, _ = shortp8.strip_default_tail(f.getvalue())
+    g = P8Formatter.from_file(io.BytesIO(text))
+    return g, [g.gfx, g.map, g.gff, g.music, g.sfx]
+
+
 class Timeout(Exception):
     pass
 
